@@ -331,6 +331,8 @@ pub fn c16(ctx: &mut Ctx) {
     if ctx.failed() { return; }
     ctx.search("ps-close-during-poll", super::closepoll::strategy, ctx.tier.pick(3_000, 60_000), true, super::closepoll::run_case);
     if ctx.failed() { return; }
+    ctx.search("rr-close-during-poll", super::closepoll::strategy, ctx.tier.pick(3_000, 60_000), true, super::closepoll::run_case_rr);
+    if ctx.failed() { return; }
     let alpha = ps::small_alphabet(true, false);
     ps_exhaustive(ctx, "ps-close-exhaustive", &alpha, ctx.tier.pick(5, 7), c16_ps_nontrivial);
     if ctx.failed() { return; }
